@@ -34,12 +34,6 @@ fn("engine/default.py::DefaultDialect._do_ping_w_event@ghost", abstract=True, cl
    may_raise={"BaseException": "True"}, notes="pre-ping: True / False (ghost: the connection is marked dead) / raises")
 fn("pool/base.py::Pool._invalidate@nocheckin", abstract=True, cls="PoolC", params=["self", "connection", "exception", "_checkin"], returns="none", types={"_checkin": "bool"},
    requires=["not _checkin"], modifies=["self._invalidate_time"], notes="Pool._invalidate(.., _checkin=False): moves the pool-wide invalidation time forward only")
-fn("pool/base.py::_ConnectionRecord.checkout@new", abstract=True, params=["cls_", "pool"], types={"pool": "PoolC"}, returns="Fairy", fresh_result=True,
-   modifies=[], may_raise={"BaseException": "True"},
-   ensures=["result._connection_record is not None and fresh(result._connection_record)", "result._connection_record.__pool is pool",
-            "result.dbapi_connection is result._connection_record.dbapi_connection", "result.dbapi_connection is not None",
-            "not result.dbapi_connection.closed", "not result.dbapi_connection._g_dead", "result._counter == 0", "result._connection_record.fairy_ref is not None"],
-   notes="_ConnectionRecord.checkout: a record from the pool with a live connection wrapped in a new fairy (C25 / C26 contracts), or raises with nothing checked out")
 fn(F + "invalidate@ghost", abstract=True, cls="Fairy", params=["self"], returns="none", modifies=["*"], notes="fairy.invalidate() on the exhausted path")
 
 REC = "result._connection_record"
@@ -47,7 +41,7 @@ T = {"pool": "PoolC", "threadconns": "v", "fairy": "opt:Fairy", "attempts": "int
      "e": "DisconnErr", "err": "v", "be_outer": "v", "rec": "opt:CRecord", "expr:fairy._connection_record": "opt:CRecord",
      ".invalidate_pool": "bool"}
 fn(F + "_checkout", props=["C26"], types=T, returns="Fairy", consts={"exc.DisconnectionError": "class"},
-   callees={"_ConnectionRecord.checkout": dict(fn="pool/base.py::_ConnectionRecord.checkout@new", args=["None", "$0"]),
+   callees={"_ConnectionRecord.checkout": dict(fn="pool/base.py::_ConnectionRecord.checkout", args=["None", "$0"]),
             "weakref.ref": "havoc:v", "pool.logger.debug": "noop", "pool.logger.info": "noop",
             "pool.dispatch.checkout": dict(fn="pool/events.py::PoolEvents.checkout@listener", recv="pool.dispatch", args=["$0", "$1", "$2"]),
             "pool._dialect._do_ping_w_event": dict(fn="engine/default.py::DefaultDialect._do_ping_w_event@ghost", recv="pool._dialect", args=["$0"]),
@@ -56,7 +50,7 @@ fn(F + "_checkout", props=["C26"], types=T, returns="Fairy", consts={"exc.Discon
    invariant={0: ["fairy is not None and fairy._connection_record is not None and fairy._connection_record.__pool is pool",
                   "fairy.dbapi_connection is fairy._connection_record.dbapi_connection and fairy.dbapi_connection is not None and not fairy.dbapi_connection.closed",
                   "not fairy.dbapi_connection._g_dead",
-                  "fresh(fairy) and fresh(fairy._connection_record)", "pool.returned == old(pool.returned)",
+                  "fresh(fairy)", "pool.returned == old(pool.returned)",
                   "fairy._connection_record.fairy_ref is not None", "0 <= attempts and attempts <= 2"]},
    loop_modifies={0: ["any.dbapi_connection", "any.closed", "any.fresh", "any.starttime", "any._soft_invalidate_time", "any._invalidate_time",
                       "any.contents", "any.fairy_ref", "any.returned", "any._g_dead"]},
@@ -69,9 +63,8 @@ fn(F + "_checkout", props=["C26"], types=T, returns="Fairy", consts={"exc.Discon
    may_raise={"BaseException": "True"},
    modifies=["*"])
 
-# ---- _ConnectionRecord.checkout itself, proved.  (`_checkout` above keeps using the summary `checkout@new`, which additionally treats the
-# record as unaliased ("fresh") -- records are pooled objects, so the proved contract below cannot and does not say that; swapping it in
-# made every path of `_checkout` infeasible, which the vacuity guard reports; not resolved in this build.)  The only thing taken from the pool
+# ---- _ConnectionRecord.checkout itself, proved; `_checkout` above is verified against THIS contract (an earlier assumed summary, which
+# also called the pooled record "fresh", is gone).  The only thing taken from the pool
 # implementation is `_do_get` (QueuePool._do_get etc.: proved under C25 in their own vocabulary): it yields a record of this pool
 # that no fairy refers to, whose connection -- if it still has one -- is open and has no detected disconnect.
 cls("WRef", fields={})        # a weakref.ref object (never None)
@@ -92,7 +85,7 @@ fn("pool/base.py::_ConnectionRecord.checkout", props=["C26"], returns="Fairy",
    consts={"TYPE_CHECKING": ("bool", False), "_finalize_fairy": "class"},
    callees={"weakref.ref": "newobj:WRef", "pool.logger.debug": "noop", "_ConnectionFairy": "construct:Fairy", "cast": "identity",
             "_finalize_fairy": "noop"},     # only named inside the weakref callback (a lambda that is created here, not run)
-   ensures=[RC + " is not None", RC + ".__pool is pool", "result.dbapi_connection is " + RC + ".dbapi_connection", "result.dbapi_connection is not None",
+   ensures=["result is not None and fresh(result)", RC + " is not None", RC + ".__pool is pool", "result.dbapi_connection is " + RC + ".dbapi_connection", "result.dbapi_connection is not None",
             "not result.dbapi_connection.closed", "not result.dbapi_connection._g_dead", "result._counter == 0", RC + ".fairy_ref is not None",
             # exactly one record was taken from the pool, and it is the one the fairy wraps; it is not handed back
             "pool._g_got == old(pool._g_got) + [" + RC + "]", "pool.returned == old(pool.returned)"],
